@@ -59,7 +59,9 @@ def cases_functions(tier):
         if quick and R == 3:
             masks = [[False] * 3, [False, True, False], [True, True, False], [True] * 3]
         for mask in masks:
-            for est in (["mean"], ["mean", "stddev"]) if (quick and (J + K) > 1) or not quick else (["mean"],):
+            # stddev with *symbolic* weights is kept to R <= 2 (the non-linear obligations go 'unknown' beyond); larger
+            # ensembles with the stddev estimator are covered by the given-weights scenario below
+            for est in (["mean"], ["mean", "stddev"]) if R <= 2 and ((quick and (J + K) > 1) or not quick) else (["mean"],):
                 emaps = [None] if len(est) == 1 else ([[1] * J] if J == 1 else [[0, 1], [1, 0]])
                 for emap in emaps:
                     fmaps = [(None, None)]
